@@ -26,6 +26,11 @@ class ExprMixin:
             return v.t != self.ctx.sorts.Node.NNil
         if isinstance(v, VAst):
             return z3.BoolVal(True)
+        if isinstance(v, VElemList):
+            return self.ctx.sorts.ElemList.is_ECons(v.t)
+        if isinstance(v, VElem):
+            # Element truthiness is len(element) > 0 (deprecated in the library, but that is what it does)
+            return self.ctx.sorts.ElemList.is_ECons(self.ctx.sorts.Elem.kids(v.t))
         if isinstance(v, (VList, VTuple)):
             return z3.BoolVal(len(v.items) > 0)
         if isinstance(v, VDict):
@@ -581,6 +586,17 @@ class ExprMixin:
             return VBoundStr(base, name)
         if isinstance(base, (VList, VSeq, VHeapList, VDict, VSet)):
             return VBoundColl(base, name, node.value if node is not None else None)
+        if isinstance(base, VElem):
+            E = self.ctx.sorts.Elem
+            if name == 'tag':
+                return VStr(E.tag(base.t))
+            if name == 'text':
+                # Element.text is None when the element has no text
+                self.ctx.assumptions.add('xml.etree Element modelled as a value (tag, text or None, ordered children); attributes, tail text '
+                                         'and namespaces are not modelled')
+                return self.merge(E.has_text(base.t), VStr(E.text(base.t)), VNone()) if not z3.is_true(z3.simplify(E.has_text(base.t))) \
+                    else VStr(E.text(base.t))
+            raise OutOfReach(f'Element attribute {name}')
         if isinstance(base, VPy):
             key = (base.t.get_id(), name)
             if key not in self.ctx.opaque_attrs:
@@ -861,6 +877,17 @@ class ExprMixin:
                 self.ctx.oblige(path, 'defined', f'dict key {key!r} present (KeyError)', z3.BoolVal(False), ln)
                 raise PathAbort('KeyError')
             return base.items[key]
+        if isinstance(base, (VElem, VElemList)):
+            L = self.ctx.sorts.ElemList
+            lst = self.ctx.sorts.Elem.kids(base.t) if isinstance(base, VElem) else base.t
+            i = z3.simplify(self.coerce(idx, INT).t)
+            if not z3.is_int_value(i) or i.as_long() < 0:
+                raise OutOfReach('Element subscript with a symbolic or negative index')
+            for _ in range(i.as_long()):
+                self.ctx.oblige(path, 'defined', 'index in range (IndexError)', L.is_ECons(lst), ln)
+                lst = L.tail(lst)
+            self.ctx.oblige(path, 'defined', 'index in range (IndexError)', L.is_ECons(lst), ln)
+            return VElem(L.head(lst))
         if isinstance(base, (VList, VTuple, VSeq, VHeapList)):
             i = self.coerce(idx, INT).t
             n = self.length(base, path)
@@ -886,6 +913,15 @@ class ExprMixin:
             raise OutOfReach('slice with step')
         lo = self.coerce(self.ev(sl.lower, path), INT).t if sl.lower is not None else None
         hi = self.coerce(self.ev(sl.upper, path), INT).t if sl.upper is not None else None
+        if isinstance(base, (VElem, VElemList)):
+            L = self.ctx.sorts.ElemList
+            lst = self.ctx.sorts.Elem.kids(base.t) if isinstance(base, VElem) else base.t
+            lo_s = z3.simplify(lo) if lo is not None else z3.IntVal(0)
+            if hi is not None or not z3.is_int_value(lo_s) or lo_s.as_long() < 0:
+                raise OutOfReach('Element slice other than [k:] with a constant k >= 0')
+            for _ in range(lo_s.as_long()):
+                lst = z3.If(L.is_ECons(lst), L.tail(lst), L.ENil)      # slicing never raises
+            return VElemList(lst)
         if isinstance(base, VStr):
             n = z3.Length(base.t)
 
